@@ -882,3 +882,13 @@ Definition std_free (g : gr) : bool :=
   forallb (fun e : N * N * eatt => match e_std (snd e) with None => true | Some _ => false end) (gedges g).
 Definition run_smart3 (r p : gr) (eo : list (N * N)) (core reindex explicit_h : bool) : tok :=
   L [run_smart2 r p eo core reindex explicit_h; tbool (std_free r && std_free p)].
+
+(** ** has_XH / has_HH (synkit/Graph/Hyrogen/_misc.py): a bond between a hydrogen and a heavy atom in EITHER orientation of
+    the edge, resp. between two hydrogens; G.nodes[u].get("element") == "H" *)
+Definition has_XH (g : gr) : bool :=
+  existsb (fun e : N * N * eatt => let '(u, v, _) := e in
+             (negb (is_H g u) && is_H g v) || (negb (is_H g v) && is_H g u)) (edges_iter g).
+Definition has_HH (g : gr) : bool :=
+  existsb (fun e : N * N * eatt => let '(u, v, _) := e in is_H g u && is_H g v) (edges_iter g).
+Definition run_hx4 (g : gr) (nodes : option (list N)) (its : bool) : tok :=
+  L [run_hx3 g nodes its; tbool (has_XH g); tbool (has_HH g); tbool (has_XH (h_to_explicit g nodes its)); tbool (has_XH (h_to_implicit g))].
